@@ -531,6 +531,33 @@ def run(tier, seed, replay=None):
                                  'grouping_over_numbers': text_of(paren_full(strip_par(g_num))), 'grouping_over_identifiers': text_of(paren_full(strip_par(g_id))),
                                  'what': 'the grouping of an expression depends on whether its operands are identifiers or numeric literals'})
             stats.setdefault(dialect, {})['numeric_operand_cases'] = nnum
+            # ... nor on the layout of the text: the same tokens separated by line breaks, tabs and runs of blanks
+            nlay = 0
+            rep_lay = 0
+            for cname, tmpl, getter, e in sample:
+                etext = text_of(e)
+                ltext = re.sub(r' ', lambda m: rng.choice(['\n', '\n   ', '\t', '  ', ' ', '\n\n']), etext)
+                if ltext == etext:
+                    continue
+                try:
+                    g_one = shape_of_ast(getter(parse_sql(tmpl.format(etext), dialect)), names)
+                except Exception:
+                    continue
+                try:
+                    g_lay = shape_of_ast(getter(parse_sql(tmpl.format(ltext), dialect)), names)
+                except Exception as ex:
+                    g_lay = ('rejected', type(ex).__name__)
+                if g_one is None:
+                    continue
+                nlay += 1
+                evaluations += 1
+                if g_lay != g_one and rep_lay < 3:
+                    rep_lay += 1
+                    R.violation({'dialect': dialect, 'context': cname, 'sql': tmpl.format(ltext), 'the_same_on_one_line': tmpl.format(etext),
+                                 'grouping_on_one_line': text_of(paren_full(strip_par(g_one))),
+                                 'grouping_with_this_layout': text_of(paren_full(strip_par(g_lay))) if g_lay and g_lay[0] != 'rejected' else str(g_lay),
+                                 'what': 'the grouping (or the acceptance) of an expression depends on the white space between its tokens'})
+            stats.setdefault(dialect, {})['layout_cases'] = nlay
             rows = []
             idnum = json.loads((GEN / f'Tbl_{dialect}.json').read_text())['num']
             for cname, tmpl, getter, e in cases:
